@@ -359,21 +359,22 @@ def setup_rlimit(it, cfg):
 
     it.env_over["_pslinux.resource"] = NativeStub({"prlimit": EnvFunc("prlimit", prlimit)})
     it.env_over["resource.prlimit"] = EnvFunc("prlimit", prlimit)
-    lim = {"none": None, "pair": (soft, hard), "one": (soft,), "three": (soft, hard, soft), "list": [soft, hard]}[cfg["limits"]]
+    lim = {"none": None, "pair": (soft, hard), "one": (soft,), "three": (soft, hard, soft), "list": [soft, hard],
+           "empty": (), "emptylist": []}[cfg["limits"]]
     return {"args": {"self": o, "resource_": res, "limits": lim},
             "spec": {"pid": pid, "res": res, "soft": soft, "hard": hard, "ks": k_soft, "kh": k_hard, "mode": cfg["limits"],
                      "fault": fault, "lim": lim},
             "values": [res, soft, hard]}
 
 
-RL_CFGS = [{"limits": m} for m in ("none", "pair", "one", "three", "list")] + [{"limits": "pair", "pid0": True}] + \
+RL_CFGS = [{"limits": m} for m in ("none", "pair", "one", "three", "list", "empty", "emptylist")] + [{"limits": "pair", "pid0": True}] + \
           [{"limits": "pair", "fault": "EINVAL"}, {"limits": "none", "fault": "ENOSYS"}]
 REGISTRY.add(Contract(
     "C18", LINUX_PY, "Process.rlimit", setup=setup_rlimit, env=ENV, configs=RL_CFGS,
     ensures=["implies(mode == 'none', result == (ks, kh) and log == [('prlimit', pid, res)])",
              "implies(mode in ('pair', 'list'), log == [('prlimit', pid, res, lim)])",
              "mode in ('none', 'pair', 'list')", "pid != 0", "fault is None"],
-    raises={"ValueError": ["len(log) == 0", "mode in ('one', 'three') or pid == 0"],
+    raises={"ValueError": ["len(log) == 0", "mode in ('one', 'three', 'empty', 'emptylist') or pid == 0"],
             "OSError": ["fault is not None", "len(log) == 1"], "ZombieProcess": None, "NoSuchProcess": None,
             "AccessDenied": None},
     canaries=["len(log) == 7"], replay=None,
